@@ -54,7 +54,12 @@
      S8 NoStuckCall   once the channel is closed (close from either side, or connection lost) no call
                       is blocked: Wait has returned, pending requests have failed.
      S9 NoPanic       (binding) no server packet order makes the client panic or leaves a goroutine
-                      of package ssh blocked for ever after the connection ended.
+                      of package ssh blocked for ever after the connection ended; model level: the
+                      client's read loop is never blocked by requests nobody services (S9_NoStall; fails
+                      for the code as it is beyond the bounds, see Unserviced and known finding X01-F1).
+
+   Scope of S2 on connection loss (sdrop): asserted for what was consumed at quiescent points; output
+   still in flight when the connection disappears is outside the promise (see the claim's note).
 *)
 EXTENDS Integers, Sequences, FiniteSets, TLC
 
